@@ -217,6 +217,14 @@ def check_call_trace_functionals(tier, seed):
                 eo[a] += v
         if np.abs(np.asarray(freqs) - ef).max() > 1e-12 or np.abs(np.asarray(occ) - eo).max() > 1e-12 or np.abs(np.asarray(counts) - ploidy * np.array(ef)).max() > 1e-12:
             bad("rt/call_posterior_frequencies", "mchap.calling.classes._posterior_frequencies", inp, [np.asarray(freqs).tolist(), np.asarray(occ).tolist()], [ef, eo])
+        # the allele functionals do not depend on the order in which the alleles of a step are stored
+        tr2 = tr.copy()
+        for c in range(chains):
+            for s_ in range(steps):
+                tr2[c, s_] = tr2[c, s_][rng.permutation(ploidy)]
+        f2, c2, o2 = CC.GenotypeAllelesMultiTrace(tr2, np.zeros((chains, steps)), n_allele).burn(burn).posterior_frequencies()
+        if np.abs(np.asarray(f2) - ef).max() > 1e-12 or np.abs(np.asarray(o2) - eo).max() > 1e-12 or np.abs(np.asarray(c2) - ploidy * np.array(ef)).max() > 1e-12:
+            bad("rt/call_posterior_frequencies_order_independent", "mchap.calling.classes._posterior_frequencies", dict(inp, trace=tr2.tolist()), [np.asarray(f2).tolist(), np.asarray(o2).tolist()], [ef, eo], "alleles of every step stored in a random order")
         arr = pd.as_array(n_allele)
         gens = sorted_genotypes(n_allele, ploidy)
         exp_arr = [post.get(gk, 0.0) for gk in gens]
